@@ -446,15 +446,17 @@ def _tasks(tier, seed):
     arg["seed"] = rng.randrange(1 << 30)
     tasks.append({"fn": "vf.checks.c13:child", "arg": arg, "id": tid, "timeout": 5400})
 
+  info["exhaustive <=1 parameter of each kind"] = {
+      "signatures": len(S.enumerate_signatures(1)), "callee_kinds": len(S.KINDS), "call_fraction": 1.0,
+      "call_shapes": "0..#positional+1 (+1 with *va) positionals x keyword subsets (<=3) of params + 1 unknown"}
   if tier == "quick":
     ns1 = 23
+    frac1 = {"func": 1.0, "method": 0.5, "classmethod": 0.5, "staticmethod": 0.5, "init": 0.5, "lambda": 0.5}
+    info["exhaustive <=1 parameter of each kind"]["call_fraction"] = frac1
     for s in range(ns1):
       add(f"exh1/{s}", mode="exhaustive", max_per_kind=1, kinds=S.KINDS, max_kw=3, shard=s, nshards=ns1,
-          star_fraction=0.15)
-    info["exhaustive <=1 parameter of each kind"] = {
-        "signatures": len(S.enumerate_signatures(1)), "callee_kinds": len(S.KINDS),
-        "call_shapes": "0..#positional+1 (+1 with *va) positionals x keyword subsets (<=3) of params + 1 unknown"}
-    for b in range(24):
+          star_fraction=0.15, call_fraction=frac1)
+    for b in range(16):
       add(f"rnd/{b}", mode="random", count=22, calls_per_sig=12, star_fraction=0.3)
   else:
     ns1 = 16
